@@ -28,6 +28,8 @@ pub struct Emitted {
     pub op_dts: String,
     pub program: Program,
     pub stripped: bool,
+    /// schema given as introspection JSON / written as definitions plus extensions
+    pub route: &'static str,
 }
 
 pub fn capitalize(s: &str) -> String {
@@ -67,20 +69,44 @@ pub fn emit(case: &mut Case, allow_undefined: bool) -> Result<Option<Emitted>, F
         // redirected by the exclusion of a known finding
         let _ = case.allow("merged_key_with_variable_condition");
     }
-    let cfg = ScalarCfg::generate(&mut case.ch, &gs.schema, true);
+    // a fifth of the cases take the introspection route (schema as the JSON a server returns; no directive
+    // applications exist there, so every scalar type comes from the configuration)
+    let via_json = case.ch.chance(1, 5);
+    let cfg = ScalarCfg::generate(&mut case.ch, &gs.schema, !via_json);
     let sdl_doc = sdl_with_scalar_directives(&gs.doc, &cfg);
-    let schema_sdl = canon_ts(&sdl_doc);
+    // half of the SDL schemas are written as definitions plus extensions (`extend type X implements I`, extra
+    // fields / members / values / directives), over one to four files
+    let schema_texts: Vec<String> = if !via_json && case.ch.flip() {
+        case.label("schema-with-extensions");
+        split_into_extensions(&mut case.ch, &sdl_doc).iter().filter(|f| !f.is_empty()).map(|f| canon_ts(f)).collect()
+    } else {
+        vec![canon_ts(&sdl_doc)]
+    };
+    let schema_sdl = schema_texts.join("\n# ---- next file\n");
     let op_text = canon_op(&gd.doc);
-    let detail = json!({"schema": schema_sdl, "operations": op_text});
-    let sfiles = vec![(PathBuf::from("/p/schema.graphql"), schema_sdl.clone())];
+    let detail = json!({"schema": schema_sdl, "operations": op_text, "schema_via_introspection_json": via_json});
+    let sfiles: Vec<(PathBuf, String)> = schema_texts.iter().enumerate().map(|(i, t)| (PathBuf::from(format!("/p/schema{i}.graphql")), t.clone())).collect();
     let ofiles = vec![(PathBuf::from("/p/ops.graphql"), op_text.clone())];
     let ss = schema_stage(&sfiles, &detail)?;
     if !ss.ok() {
         let d = ss.all_diags();
         return Err(Failure::new(format!("precondition:schema-rejected:{}", d[0].kind), format!("{:?}", d[0]), detail));
     }
-    let sdoc = ss.doc.as_ref().unwrap();
-    let os = op_stage(sdoc, 1, &ofiles, &detail)?;
+    let js;
+    let ischema;
+    let iast;
+    let mut sdoc = ss.doc.as_ref().unwrap();
+    let mut svalue = None;
+    if via_json {
+        case.label("schema-via-introspection-json");
+        let io = crate::introspect::IntrospectOpts { meta_types: case.ch.flip(), absent_optionals: case.ch.flip(), shuffle: case.ch.flip() };
+        js = crate::introspect::introspect(&gs.schema, &io, Some(&mut case.ch));
+        ischema = schema_via_introspection(&js, &detail)?;
+        iast = guard(|| nitrogql_semantics::type_system_to_ast(&ischema)).map_err(|p| panic_failure("type_system_to_ast", &p, detail.clone()))?;
+        sdoc = &iast;
+        svalue = Some(&ischema);
+    }
+    let os = op_stage_with(sdoc, svalue, sfiles.len(), &ofiles, &detail)?;
     if let Some(d) = os.all_diags().first() {
         return Err(Failure::new(format!("precondition:document-rejected:{}", d.kind), format!("{:?}", d), detail));
     }
@@ -92,8 +118,8 @@ pub fn emit(case: &mut Case, allow_undefined: bool) -> Result<Option<Emitted>, F
     let mut oopts = OperationTypePrinterOptions::default();
     oopts.schema_source = "./schema".into();
     oopts.allow_undefined_as_optional_input = allow_undefined;
-    let op_dts = gen_operation_dts(sdoc, &os.files[0].doc, oopts, None, &detail)?.buffer;
-    let detail2 = json!({"schema": schema_sdl, "operations": op_text, "schema_dts": schema_dts, "operation_dts": op_dts});
+    let op_dts = gen_operation_dts_with(sdoc, svalue, &os.files[0].doc, oopts, None, &detail)?.buffer;
+    let detail2 = json!({"schema": schema_sdl, "operations": op_text, "schema_dts": schema_dts, "operation_dts": op_dts, "schema_via_introspection_json": via_json});
     let mut program = Program::new();
     if let Err(e) = program.add_module("Schema", &schema_dts) {
         return Err(Failure::new("ts-parse-error:schema", format!("emitted schema declarations are not well-formed: {} at {}:{}", e.msg, e.line, e.col), detail2));
@@ -101,7 +127,7 @@ pub fn emit(case: &mut Case, allow_undefined: bool) -> Result<Option<Emitted>, F
     if let Err(e) = program.add_module("ops", &op_dts) {
         return Err(Failure::new("ts-parse-error:operations", format!("emitted operation declarations are not well-formed: {} at {}:{}", e.msg, e.line, e.col), detail2));
     }
-    Ok(Some(Emitted { gs, doc: gd.doc, labels: gd.labels, cfg, schema_sdl, op_text, schema_dts, op_dts, program, stripped }))
+    Ok(Some(Emitted { gs, doc: gd.doc, labels: gd.labels, cfg, schema_sdl, op_text, schema_dts, op_dts, program, stripped, route: if via_json { "introspection-json" } else if schema_texts.len() > 1 { "sdl-with-extensions" } else { "sdl" } }))
 }
 
 pub enum Target<'a> {
@@ -188,7 +214,7 @@ pub fn c01_case(case: &mut Case) -> CaseResult {
                             "response-not-admitted",
                             format!("{}: a spec-conformant response is not a member of the emitted type {tn}", t.describe()),
                             json!({"schema": em.schema_sdl, "operations": em.op_text, "operation_dts": em.op_dts,
-                                   "variables": sigma, "runtime_type": obj, "response": resp.to_json(), "type": tn}),
+                                   "variables": sigma, "runtime_type": obj, "response": resp.to_json(), "type": tn, "schema_route": em.route, "schema_dts": em.schema_dts}),
                         ));
                     }
                     if let Val::Obj(m) = &resp {
